@@ -56,12 +56,23 @@ func (sa SessionBasedAuthorizer) Handle(response tq.Response, request tq.Request
 		case tq.AuthorStatusPassRepl:
 			stringyHandleAuthorizeAcceptPassReplace.Inc()
 		}
-		response.Reply(
+		if _, err := response.Reply(
 			tq.NewAuthorReply(
 				tq.SetAuthorReplyStatus(status),
 				tq.SetAuthorReplyArgs(args...),
 			),
-		)
+		); err != nil {
+			// configured values that do not form valid arguments (empty, too long, not ascii) cannot
+			// be sent; the client must still get an answer
+			sa.Errorf(request.Context, "unable to send configured args for user [%v]; %v", sa.user.Name, err)
+			stringyHandleAuthorizeError.Inc()
+			response.Reply(
+				tq.NewAuthorReply(
+					tq.SetAuthorReplyStatus(tq.AuthorStatusError),
+					tq.SetAuthorReplyServerMsg("unable to build authorization reply"),
+				),
+			)
+		}
 		return
 	}
 	sa.Debugf(request.Context, "user [%v] failed session based authorization", sa.user.Name)
